@@ -395,6 +395,7 @@ class Service(object):
         # - disable cache if comparing providers or if after_txid is used and no cache is available
         last_block = None
         last_txid = None
+        cache_gap = False
         history_cached = db_addr is not None and db_addr.last_txid is not None
         if self.min_providers <= 1 and not (after_txid and not history_cached) and caching_enabled:
             last_block = self.blockcount()
@@ -418,18 +419,24 @@ class Service(object):
                         if res is False:
                             if t.block_height:
                                 last_block = t.block_height - 1
+                            cache_gap = True
                             break
                 self.cache.commit()
-                self.cache.store_address(address, last_block, last_txid=last_txid, txs_complete=self.complete)
+                self.cache.store_address(address, last_block, last_txid=last_txid,
+                                         txs_complete=self.complete and not cache_gap)
 
         all_txs = txs_cache + txs
         # If we have txs for this address update spent and balance information in cache
         if self.complete:
             all_txs = transaction_update_spents(all_txs, address)
             if caching_enabled:
-                self.cache.store_address(address, last_block, last_txid=last_txid, txs_complete=True)
+                # If a transaction could not be stored the cached history is not complete: do not derive address
+                # totals from it, and do not store later transactions, the cached history may not have gaps
+                if not cache_gap:
+                    self.cache.store_address(address, last_block, last_txid=last_txid, txs_complete=True)
                 for t in all_txs:
-                    self.cache.store_transaction(t, commit=False)
+                    if self.cache.store_transaction(t, commit=False) is False:
+                        break
                 self.cache.commit()
         return all_txs
 
